@@ -384,7 +384,9 @@ func (vc *VC) instrMods(ins ssa.Instruction, ms *modSet) {
 		vc.callMods(&x.Call, ms)
 	case *ssa.Defer:
 		vc.callMods(&x.Call, ms)
-	case *ssa.Go, *ssa.Send, *ssa.Select:
+	case *ssa.Send:
+		ms.comps["N_send"] = "Int"
+	case *ssa.Go, *ssa.Select:
 		ms.all = true
 	}
 }
@@ -658,6 +660,24 @@ func (vc *VC) enterLoop(li *loopInfo, pre *State) (*State, error) {
 		return env
 	}
 	li.env = envOf
+	if spec != nil && spec.Exhaustive {
+		// every edge that leaves the loop starts at the loop head (the range / condition check): no break, no return
+		goal := "true"
+		for b := range li.body {
+			if b == li.head {
+				continue
+			}
+			for _, sc := range b.Succs {
+				if !li.body[sc] {
+					goal = "false"
+				}
+			}
+			if len(b.Succs) == 0 {
+				goal = "false"
+			}
+		}
+		vc.oblige(pre, fmt.Sprintf("loop%d.exhaustive", li.ord), "loop.exhaustive", goal, "the loop is only left through its range/condition check (no break or return inside the body)", nil)
+	}
 	if spec != nil {
 		env := envOf(pre)
 		for _, c := range spec.Invariants {
@@ -790,6 +810,14 @@ func (vc *VC) backEdge(li *loopInfo, st *State) error {
 			return fmt.Errorf("%s loop %d invariant#%d: %v", vc.key, li.ord, c.N, err)
 		}
 		vc.oblige(st, fmt.Sprintf("loop%d.preserve#%d", li.ord, c.N), "loop.preserve", t, c.Text, c.Props)
+	}
+	for _, c := range li.spec.Each {
+		env.iterSt = li.headState
+		t, err := env.compileBool(c.E)
+		if err != nil {
+			return fmt.Errorf("%s loop %d each#%d: %v", vc.key, li.ord, c.N, err)
+		}
+		vc.oblige(st, fmt.Sprintf("loop%d.each#%d", li.ord, c.N), "loop.each", t, c.Text, c.Props)
 	}
 	if d := li.spec.Decreases; d != nil {
 		e0 := li.env(li.headState)
@@ -1249,7 +1277,16 @@ func (vc *VC) exec(st *State, ins ssa.Instruction) error {
 	case *ssa.Go:
 		vc.unsupp["go statement"] = true
 		vc.havocAll(st, "go statement")
-	case *ssa.Send, *ssa.Select, *ssa.MakeChan:
+	case *ssa.Send:
+		// a channel send changes no modelled state (channel buffers are not modelled, blocking is not modelled): it is
+		// counted by the ghost counter behind nsends() and can carry site assertions (at send chan#n: arg0 = channel, arg1 = value)
+		vc.assumedUse["channel send is a counted no-op on the modelled heap (sequential semantics; blocking and the receiver are not modelled)"] = true
+		vc.sendOrd++
+		if err := vc.siteAsserts(st, "send", "chan", vc.sendOrd, "before", []ssa.Value{x.Chan, x.X}, nil); err != nil {
+			return err
+		}
+		st.heap["N_send"] = vc.define("N_send", "Int", sx("+", vc.heapGet(st, "N_send", "Int"), "1"))
+	case *ssa.Select, *ssa.MakeChan:
 		vc.unsupp[fmt.Sprintf("%T", x)] = true
 		if v, ok := ins.(ssa.Value); ok {
 			vc.setFresh(st, v, "chan")
